@@ -1,5 +1,6 @@
 """C03 (models), C06/C07 (unsat cores), C08/C09 (interpolants), C10 (proofs), C19 (rejected commands), C21 (name scopes)."""
 import copy
+import re
 
 from . import config as cfg
 from . import gen, hist, oracles, sexpr
@@ -221,6 +222,7 @@ class ArtifactCheck(HistCheck):
     report = None  # None: every class the oracles produce
 
     def oracle(self, ctx, case, info, res):
+        self._outs = info['outs']
         vs = judge_history(self, ctx, case, case['hist']['commands'], info['outs'], res, self.kinds)
         for v in vs:
             if self.report is None or v['cls'] in self.report:
@@ -262,6 +264,9 @@ class C03(ArtifactCheck):
                 'incremental': not any(o[0] == ':incremental' and o[1] == 'false' for o in case['options']),
                 'skip_knobs': any(k in knobs for k in ('sat_initial_skip_step', 'sat_skip_step_factor')),
                 'bool_arg_uf': any(d['k'] == 'declare-fun' and 'Bool' in d['args'] for d in case['hist']['decls']),
+                # the printed model itself is malformed in a known way: an abstract value of sort Bool, (as @5 Bool), in the
+                # table of an uninterpreted function with a Boolean argument
+                'bool_abstract_value': any(o and re.search(r'\(as @\w+ Bool\)', o) for o in getattr(self, '_outs', []) or []),
                 # an assertion level was pushed at some point (a popped level still leaves its activation variable in the SAT solver)
                 'pushed': any(c['k'] == 'push' for c in case['hist']['commands'])}
 
@@ -904,10 +909,10 @@ class C21(HistCheck):
                 for n in e if isinstance(e, list) else []:
                     if isinstance(n, str) and n not in live:
                         # with :global-declarations names persist across pops (C21 says so): a persisting name that denotes the
-                        # formula of a current named assertion (same formula asserted again under a new name) is not a popped
+                        # formula of a current assertion (same formula asserted again, under a new name or unnamed) is not a popped
                         # name showing up, so C21 does not forbid it
                         other = snaps[i]['names'].get(n)
-                        if gd and other and any(a['name'] and a['ref'] == other['ref'] for a in snaps[i]['asserts']):
+                        if gd and other and any(a['ref'] == other['ref'] for a in snaps[i]['asserts']):
                             bump(res, 'global-persisting-name-in-core')
                             continue
                         res['violations'].append({'cls': 'dead-name-printed', 'sig': {'where': 'get-unsat-core', 'global': gd, 'alias': alias_feature(self, ctx, case, i)},
